@@ -8,7 +8,7 @@ HERE = vbuild.HERE
 EVID = os.path.join(HERE, 'evidence')
 # evidence registered under /verif/evidence always describes /repo itself; a run
 # against another tree (VERIF_REPO, used to try seeded changes) writes elsewhere
-if os.path.realpath(os.environ.get('VERIF_REPO', '/repo')) != os.path.realpath('/repo'):
+if os.path.realpath(os.environ.get('VERIF_REPO', '/repo')) != os.path.realpath('/repo') or os.environ.get('VERIF_COV'):
     EVID = os.path.join(HERE, 'build', '_alt_evidence')
 REPLAY = os.path.join(HERE, 'replay')
 
